@@ -79,7 +79,7 @@ def integrity_problems(net):
 
 
 def structures():
-    S = [catalog.w_pi_valve(), catalog.w_components(), catalog.w_circ_mass(), catalog.g_components()]
+    S = [catalog.w_pi_valve(), catalog.w_components(), catalog.w_circ_mass(), catalog.g_components(), catalog.w_three_pi()]
     # pipe labels that coincide with junction labels, and a junction-pipe valve whose pipe label is a junction label too
     s = {"name": "w_pi_coincide", "fluid": "water", "nj": 4, "jl": [0, 1, 2, 3], "elems": [
         E("ext_grid", j=0), E("pipe", f=0, to=1, index=2), E("pipe", f=1, to=2, index=3), E("pipe", f=2, to=3, index=0),
@@ -96,7 +96,9 @@ def lookups(spec, rng, k):
     if k == 0:
         new = [l + 10 for l in labels]
     elif k == 1:
-        new = list(reversed(labels))            # a permutation of the existing labels
+        new = labels[1:] + labels[:1]           # a permutation of the existing labels that is not its own inverse
+    elif k == 3:
+        new = list(reversed(labels))
     else:
         new = rng.sample([p for p in pool], nj)
     return dict(zip(labels, new))
@@ -364,7 +366,7 @@ def jobs(tier, seed):
     for s in structures():
         mode = "sequential" if s["name"].startswith("w_circ") else "hydraulics"
         for tool in ("reindex_junctions", "reindex_pipes", "reindex_elements_sink", "continuous_junctions", "continuous_elements", "both"):
-            for k in ((0, 1) if tier == "quick" else (0, 1, 2)):
+            for k in ((0, 1) if tier == "quick" else (0, 1, 2, 3)):
                 if tool in ("reindex_elements_sink",) and k:
                     continue
                 out.append({"name": "relabel/%s/%s/k%d" % (s["name"], tool, k), "kind": "relabel", "spec": s, "tool": tool, "k": k,
